@@ -5,6 +5,7 @@ package db
 import (
 	"context"
 	"fmt"
+	"os"
 	"sort"
 	"strings"
 	"testing"
@@ -137,6 +138,7 @@ func (w *c03World) apply(sym string) error {
 		if winner != "" {
 			body[BodyRev] = winner
 		}
+		isDelete := body[BodyDeleted] == true // Put removes _deleted from the map it is given
 		rev, _, err := w.coll.Put(ctx, docID, body)
 		if err != nil {
 			return err
@@ -144,7 +146,7 @@ func (w *c03World) apply(sym string) error {
 		if winner != "" {
 			delete(m.leaves, winner)
 		}
-		m.leaves[rev] = c03LeafModel{grant: g, deleted: body[BodyDeleted] == true}
+		m.leaves[rev] = c03LeafModel{grant: g, deleted: isDelete}
 		w.curRev[id] = rev
 		return nil
 	}
@@ -294,6 +296,16 @@ func c03Keys(m map[string]bool) string {
 // check compares every principal with the model; returns fingerprint->detail
 func (w *c03World) check(step string) map[string]string {
 	viol := map[string]string{}
+	if os.Getenv("VERIF_DEBUG") != "" {
+		for id, m := range w.docs {
+			doc, err := w.coll.GetDocument(w.ctx, w.n(id), DocUnmarshalAll)
+			if err != nil {
+				fmt.Printf("DEBUG %s: %v\n", id, err)
+				continue
+			}
+			fmt.Printf("DEBUG after %s: doc %s model leaves %+v | real current=%s deleted=%v leaves=%v access=%v roleAccess=%v\n", step, id, m.leaves, doc.GetRevTreeID(), doc.IsDeleted(), doc.History.GetLeaves(), doc.Access, doc.RoleAccess)
+		}
+	}
 	a := w.db.Authenticator(w.ctx)
 	kind := step
 	if i := strings.Index(step, ":"); i > 0 && strings.HasPrefix(step, "g") {
@@ -388,7 +400,7 @@ func (e *c03Env) run(t testing.TB, r *vreport.Report, hist []string) {
 func TestVerifC03(t *testing.T) {
 	r := vreport.Begin("C03")
 	defer r.Finish(t)
-	r.Rule("every history up to depth D over an 18-symbol alphabet (admin channel / role assignment of a user, role channels, role delete / re-create, user created late, granting document write with access() for a user / a role, role() grant, grant to a not-yet-created user, grant removal, delete, conflicting revision, second document granting the same channel) on a real database; after every step every principal's effective channels and role names are compared with the model; non-trivial = distinct history")
+	r.Rule("every history up to depth D over an 18-symbol alphabet (admin channel / role assignment of a user, role channels, role delete / re-create, user created late, granting document write with access() for a user / a role, role() grant, grant to a not-yet-created user, grant removal, delete, conflicting revision, second document granting the same channel) on a real database, from the empty database and (depth D-1) from three bases in which a granting document has two live conflicting leaves carrying different kinds of grant; after every step every principal's effective channels and role names are compared with the model; non-trivial = distinct history")
 	r.Assume("default sync-function semantics: grants come from the current winning revision of live documents; one database is reused with per-history principal and document names")
 	db, ctx := SetupTestDBWithOptions(t, DatabaseContextOptions{AllowConflicts: base.Ptr(true), CacheOptions: base.Ptr(DefaultCacheOptions()), Scopes: GetScopesOptionsDefaultCollectionOnly(t), BcryptCost: 4})
 	defer db.Close(ctx)
@@ -440,6 +452,34 @@ func TestVerifC03(t *testing.T) {
 		}
 	}
 	rec(nil)
+	// histories that start from a document with two live conflicting leaves, the losing one carrying a grant of a
+	// different kind than the winning one (which of the two wins depends on the revision digests, so both
+	// assignments are used); a state the depth bound does not reach from the empty database
+	bases := [][]string{
+		{"r1-adm-B", "g1:none", "g1:u1:C1", "g1-conflict:u1-gets-r1"},
+		{"r1-adm-B", "g1:none", "g1:u1-gets-r1", "g1-conflict:u1:C4"},
+		{"r1-adm-B", "g1:none", "g1:role-r1:C2", "g1-conflict:u1:C4"},
+	}
+	D2 := D - 1
+	r.Note("depth_from_conflicted_bases", D2)
+	for _, base := range bases {
+		var rec2 func(h []string)
+		rec2 = func(h []string) {
+			if len(h) == D2 {
+				idx++
+				if r.Mine(idx) && !r.Expired() {
+					e.run(t, r, append(append([]string{}, base...), h...))
+					r.Add("evaluations", 1)
+					r.Add("distinct_nontrivial", 1)
+				}
+				return
+			}
+			for _, s := range c03Alphabet {
+				rec2(append(append([]string{}, h...), s))
+			}
+		}
+		rec2(nil)
+	}
 	if r.Expired() {
 		r.Cap("time budget reached before all histories were explored")
 	}
